@@ -86,10 +86,11 @@ class Report:
     def info(self, msg: str) -> None:
         self.infos.append(msg)
 
-    def adopt_rules(self, other: "Report", rule: str, only: List[str]) -> int:
-        """Adopt the obligations of the listed rules of a sub-analysis under *rule*; returns how many."""
+    def adopt_rules(self, other: "Report", rule: str, only: List[str], containing: Optional[str] = None) -> int:
+        """Adopt the obligations of the listed rules of a sub-analysis under *rule* (optionally only those whose text
+        contains *containing*); returns how many."""
         sub = Report(other.prop, other.tier)
-        sub.obligations = [ob for ob in other.obligations if ob.rule in only]
+        sub.obligations = [ob for ob in other.obligations if ob.rule in only and (containing is None or containing in ob.text or containing in ob.key)]
         self.adopt(sub, rule)
         return len(sub.obligations)
 
